@@ -326,6 +326,8 @@ def run(rep):
     rep.level = 'proof'
     rep.fn(*[f"pygaps.modelling.{MC.MODELS[n]}.{n}.spreading_pressure" for n in ANALYTIC + QUAD],
            'pygaps.core.pointisotherm.PointIsotherm.spreading_pressure_at', 'pygaps.core.modelisotherm.ModelIsotherm.spreading_pressure_at')
+    rep.assume('the symbolic point isotherms have strictly increasing pressures AND loadings (the property does not require monotone loadings: '
+               'isotherms whose loading passes through a maximum are covered by the bounded closed-form clause only)')
     rep.assume('fundamental theorem of calculus: p*dPi/dp = n(p) and Pi(0+) = 0 imply Pi(p) = integral_0^p n/p dp (stated lemma)',
                'scipy.integrate.quad(f, a, b)[0] = integral of f over [a, b]',
                'interp1d kind=linear contract on strictly increasing knots; pandas API contract (pdstub)',
